@@ -24,7 +24,7 @@ pub fn small_params(s: &Spec) -> Vec<Params> {
 			}
 			v
 		}
-		ParKind::Weights => vec![Params::W(vec![1.0]), Params::W(vec![1.0, 2.0]), Params::W(vec![0.5, 1.0, 2.0]), Params::W(vec![1.0, -1.0, 2.0, 1.0])],
+		ParKind::Weights => vec![Params::W(vec![1.0]), Params::W(vec![1.0, 2.0]), Params::W(vec![0.5, 1.0, 2.0]), Params::W(vec![1.0, -1.0, 2.0, 1.0]), Params::W(vec![0.3, 1.1, 0.7])],
 		ParKind::Usize => vec![Params::U(1), Params::U(2), Params::U(3)],
 		ParKind::Renko => vec![Params::Renko(0.01, Source::Close), Params::Renko(0.1, Source::TP)],
 		ParKind::Ma => {
